@@ -608,7 +608,8 @@ class UnitGen:
                     if ctor == "Into::into":
                         # `E.map(Into::into)`: the function value is the trait method; applied to v it is `v.into()`
                         app = f"vx_v{k19}.into()"
-                    elif re.fullmatch(r"[A-Za-z_]\w*(::[A-Za-z_]\w*)*", ctor) and ctor.split("::")[-1][0].isupper():
+                    elif re.fullmatch(r"[A-Za-z_]\w*(::[A-Za-z_]\w*)*", ctor):
+                        # a constructor path or the path of a function item (`Text::as_str`): applied to v it is `PATH(v)`
                         app = f"{ctor}(vx_v{k19})"
                     else:
                         raise Undecided(f"fn {qual}: R19 refused ({ctor!r} is not a constructor path)")
